@@ -5,7 +5,11 @@ use std::collections::{BTreeMap, BTreeSet};
 fn statement_dependencies(statement: &Statement) -> BTreeSet<usize> {
     use Statement as S;
     match &statement {
-        S::Assignment { value, .. } => dependencies(value),
+        // What is assigned to has to exist as well - not only what is read.
+        S::Assignment { target, value, .. } => dependencies(target)
+            .union(&dependencies(value))
+            .cloned()
+            .collect(),
 
         S::Block { statements, .. } => statements
             .iter()
